@@ -10,5 +10,43 @@ Theorem C04_source_is_model : forall key,
   tr_key_check_public_key key = check_view (check_public_key key).
 Proof. exact key_check_public_key_translated. Qed.
 
+(* PublicKey::from_le_bytes as translated: a 32-byte key is accepted, and handed back unchanged, exactly
+   when it is not congruent to zero modulo N; otherwise the result is an error (never a panic) *)
+Theorem C04_source_from_le_bytes_iff : forall key, bytesn 32 key ->
+  (tr_key_public_from_le_bytes key = Some (inl key) <-> (le_to_Z key mod Nz <> 0)%Z) /\
+  ((le_to_Z key mod Nz = 0)%Z -> exists e, tr_key_public_from_le_bytes key = Some (inr e)).
+Proof.
+  intros key Hk. rewrite key_public_from_le_bytes_translated. unfold pk_from_le_bytes.
+  pose proof (check_iff key Hk) as [H1 H2]. split; [split|].
+  - intro H. apply H1. destruct (check_public_key key) as [[]|e|]; [reflexivity|discriminate|discriminate].
+  - intro H. rewrite (H2 H). reflexivity.
+  - intro H0. destruct (check_public_key key) as [[]|e|] eqn:E.
+    + exfalso. exact (H1 eq_refl H0).
+    + exists e. reflexivity.
+    + exfalso. destruct (check_cases key) as [[_ C]|[[_ C]|[_ [_ C]]]]; rewrite C in E; discriminate.
+Qed.
+
+(* the key each side generates for itself, as translated (the padded copy out of the big integer), on
+   either back end: the server's own key already reduced mod N, the client's relative to the announced
+   modulus *)
+Theorem C04_source_own_keys : forall be z,
+  (0 <= z < Nz -> z <> 0 -> tr_key_try_from_bigint be z = Some (inl (LE32 z)))%Z /\
+  (0 <= z < Nz -> z = 0 -> tr_key_try_from_bigint be z = Some (inr PublicKeyIsZero))%Z /\
+  (forall n', 0 < le_to_Z n' -> 0 <= z < 2 ^ 256 ->
+     (z mod le_to_Z n' <> 0 -> tr_key_client_try_from_bigint be z n' = Some (inl (LE32 z))) /\
+     (z = 0 -> tr_key_client_try_from_bigint be z n' = Some (inr PublicKeyIsZero)) /\
+     (z <> 0 -> z mod le_to_Z n' = 0 -> tr_key_client_try_from_bigint be z n' = Some (inr PublicKeyModLargeSafePrimeIsZero)))%Z.
+Proof.
+  intros be z. split; [|split].
+  - intros Hz Hnz. rewrite key_try_from_bigint_translated, (proj1 (try_from_bigint_spec be z Hz) Hnz). reflexivity.
+  - intros Hz H0. rewrite key_try_from_bigint_translated, (proj2 (try_from_bigint_spec be z Hz) H0). reflexivity.
+  - intros n' Hn Hz. destruct (client_try_from_bigint_spec be z n' Hn Hz) as (A & B & C). split; [|split].
+    + intro H. rewrite key_client_try_from_bigint_translated, (A H). reflexivity.
+    + intro H. rewrite key_client_try_from_bigint_translated, (B H). reflexivity.
+    + intros H H'. rewrite key_client_try_from_bigint_translated, (C H H'). reflexivity.
+Qed.
+
 Print Assumptions C04_source_check_iff.
+Print Assumptions C04_source_from_le_bytes_iff.
+Print Assumptions C04_source_own_keys.
 Print Assumptions C04_source_is_model.
